@@ -467,6 +467,15 @@ def stress_part(ctx, ws):
         probes = [("sym", "D"), ("compl", "D"), ("subm", "D"), ("xcompl", "D")]
         line = case_line(ws, pre, ops, threads, [], probes).replace(" S ", " X%d " % (1 + rng.below(3)))
         cases.append((line, threads, probes))
+    # long analyses: texts grown by 150 procedures (`G150`), 2–4 requests of the heavy kinds on the same and on different
+    # documents, no notifications — the answers of overlapping requests must still be the solo answers
+    for i in range(12 if quick else 200):
+        nreq = 2 + rng.below(3)
+        threads = [(rng.choice(["diag", "diag", "compl", "def"]), "D" if rng.chance(2, 3) else "E") for _ in range(nreq)]
+        probes = [("sym", "D"), ("compl", "D")]
+        line = case_line(ws, [], [], threads, [], probes).replace(" S ", " G150 X%d " % (2 + rng.below(3)))
+        cases.append((line, threads, probes))
+        ctx.count("stress-long-analyses")
     t0 = time.time()
     outs = run_conc(ctx, [c[0] for c in cases], 4 if quick else 8, deadline_ms=90000)
     ctx.log("%d free-running stress runs in %.1fs" % (len(cases), time.time() - t0))
